@@ -5,6 +5,7 @@ import (
 	"crypto/rand"
 	"fmt"
 	"io"
+	"strings"
 	"sync/atomic"
 
 	"github.com/cloudflare/circl/group"
@@ -46,6 +47,24 @@ func (g *registry) trackToken(name string, t tokens.Token) {
 	g.track(name+".Context", t.Context)
 	g.track(name+".KeyID", t.KeyID)
 	g.track(name+".Authenticator", t.Authenticator)
+}
+
+// callerOverwrites models the caller reusing a value it was handed (its own token): the newest tracked slice
+// whose name ends in suffix is overwritten by the caller, and from then on that is its expected content.
+func (g *registry) callerOverwrites(suffix string) {
+	for i := len(g.items) - 1; i >= 0; i-- {
+		if strings.HasSuffix(g.items[i].name, suffix) {
+			for k := range g.items[i].ptr {
+				g.items[i].ptr[k] ^= 0x5a
+			}
+			// only the caller wrote just now: whatever other tracked values alias this memory changed by the
+			// caller's own hand, so their expected content moves with it
+			for j := range g.items {
+				g.items[j].snap = clone(g.items[j].ptr)
+			}
+			return
+		}
+	}
 }
 
 func (g *registry) changed() (string, []byte, []byte, bool) {
@@ -199,6 +218,7 @@ func (m *c16) worlds() []func(r *core.Rand) *seqWorld {
 					iss.Verify(last)
 				}
 			}},
+			{"caller overwrites the nonce of the token it was given", func() { w.reg.callerOverwrites(".Nonce") }},
 			{"Issuer.TokenKeyID()", func() { n++; w.reg.track(fmt.Sprintf("TokenKeyID()#%d", n), iss.TokenKeyID()) }},
 		}
 		return w
@@ -239,6 +259,7 @@ func (m *c16) worlds() []func(r *core.Rand) *seqWorld {
 					w.reg.track(fmt.Sprintf("response#%d", n), resp)
 				}
 			}},
+			{"caller overwrites the nonce of the token it was given", func() { w.reg.callerOverwrites(".Nonce") }},
 			{"Issuer.TokenKeyID()", func() { n++; w.reg.track(fmt.Sprintf("TokenKeyID()#%d", n), iss.TokenKeyID()) }},
 		}
 		return w
@@ -295,6 +316,7 @@ func (m *c16) worlds() []func(r *core.Rand) *seqWorld {
 					iss.Verify(last)
 				}
 			}},
+			{"caller overwrites the nonce of the token it was given", func() { w.reg.callerOverwrites(".Nonce") }},
 			{"Issuer.TokenKeyID()", func() { n++; w.reg.track(fmt.Sprintf("TokenKeyID()#%d", n), iss.TokenKeyID()) }},
 		}
 		return w
@@ -362,6 +384,7 @@ func (m *c16) worlds() []func(r *core.Rand) *seqWorld {
 					}
 				}
 			}},
+			{"caller overwrites the nonce of the token it was given", func() { w.reg.callerOverwrites(".Nonce") }},
 			{"Issuer.NameKey().Marshal()", func() { n++; w.reg.track(fmt.Sprintf("NameKey().Marshal()#%d", n), iss.NameKey().Marshal()) }},
 		}
 		return w
@@ -379,7 +402,19 @@ func (m *c16) worlds() []func(r *core.Rand) *seqWorld {
 		must(err)
 		wire := clone(br.Marshal())
 		w.reg.track("batch request bytes", wire)
-		bi := batched.NewBasicBatchedIssuer(batchIssuer1{iss1}, batchIssuer2{iss2})
+		br2, err := batched.NewBasicClient().CreateTokenRequest([]tokens.TokenRequestWithDetails{s2.Request(), s1.Request()})
+		must(err)
+		wire2 := clone(br2.Marshal())
+		w.reg.track("other batch request bytes", wire2)
+		// the issuers are handed over as a caller-owned slice (type 2 first, so any sorting would show) that the
+		// caller clears afterwards
+		list := []batched.Issuer{batchIssuer2{iss2}, batchIssuer1{iss1}}
+		bi := batched.NewBasicBatchedIssuer(list...)
+		if _, ok := list[0].(batchIssuer2); !ok {
+			lastSetup.Store(&setupFailure{typ: w.typ, step: "NewBasicBatchedIssuer(list...)", changed: "the caller's issuer slice (reordered by the constructor)"})
+			panic("setup: constructor reordered the caller's slice")
+		}
+		list[0], list[1] = nil, nil
 		dec := new(batched.BatchedTokenRequest)
 		if !dec.Unmarshal(wire) {
 			panic("batch rejected")
@@ -414,6 +449,7 @@ func (m *c16) worlds() []func(r *core.Rand) *seqWorld {
 				}
 			}},
 			{"Unmarshal(batch bytes) again", func() { dec.Unmarshal(wire) }},
+			{"Unmarshal(other batch bytes)", func() { dec.Unmarshal(wire2) }},
 			{"UnmarshalBatchedTokenResponses(garbage)", func() { batched.UnmarshalBatchedTokenResponses(wire) }},
 		}
 		return w
@@ -466,6 +502,29 @@ func (m *c16) sequences() {
 			}
 		}
 		c.Exhaustive(fmt.Sprintf("%s: all ordered pairs of %d operations", probe.typ, nops))
+		// the decode/encode-reuse worlds are cheap: every sequence of three and of four operations as well
+		// (decode A, encode, decode B, encode - the shortest history in which a recycled buffer shows - has length four)
+		if strings.HasPrefix(probe.typ, "reuse:") {
+			for l := 3; l <= 4; l++ {
+				total := 1
+				for i := 0; i < l; i++ {
+					total *= nops
+				}
+				for x := 0; x < total; x++ {
+					if !c.Next() {
+						continue
+					}
+					idx := make([]int, l)
+					y := x
+					for i := range idx {
+						idx[i] = y % nops
+						y /= nops
+					}
+					m.runSequence(mk, idx, c.CaseRng())
+				}
+			}
+			c.Exhaustive(fmt.Sprintf("%s: all sequences of 3 and of 4 of its %d operations", probe.typ, nops))
+		}
 		// seeded triples and longer
 		n := c.Pick(40, 5000)
 		for i := 0; i < n; i++ {
